@@ -360,6 +360,11 @@ type Observed struct {
 	Panic    string   `json:"panic,omitempty"`
 	Stuck    bool     `json:"stuck,omitempty"` // the idle handler was called with nothing left to fulfil
 	Widths   []int    `json:"-"`               // outstanding promises at each idle round (real side only)
+	// The Lean reference semantics of the request (model side only): Spec.data, Spec.required, Spec.errsF.
+	HasSpec      bool     `json:"-"`
+	SpecData     string   `json:"-"`
+	SpecRequired []ErrObs `json:"-"`
+	SpecAll      []ErrObs `json:"-"`
 	// Abandoned lists the promises whose result the executor never received (real side only):
 	// delivered but left in the channel, or still outstanding when execution returned.
 	Abandoned []string `json:"abandoned,omitempty"`
@@ -401,7 +406,7 @@ func ParseModelReply(line string) (*Observed, error) {
 	if err != nil {
 		return nil, fmt.Errorf("model reply %q: %v", line, err)
 	}
-	if !x.IsList || len(x.List) != 6 || x.List[0].Atom != "out" {
+	if !x.IsList || (len(x.List) != 6 && len(x.List) != 7) || x.List[0].Atom != "out" {
 		return nil, fmt.Errorf("unexpected model reply %q", line)
 	}
 	o := &Observed{Data: x.List[1].Atom}
@@ -418,6 +423,21 @@ func ParseModelReply(line string) (*Observed, error) {
 			return nil, fmt.Errorf("bad event entry in %q", line)
 		}
 		o.Events = append(o.Events, Event{Kind: e.List[1].Atom, Path: e.List[2].Atom})
+	}
+	if len(x.List) == 7 && len(x.List[6].List) == 4 {
+		sp := x.List[6].List
+		o.HasSpec = true
+		o.SpecData = sp[1].Atom
+		for _, e := range sp[2].List {
+			if len(e.List) == 3 {
+				o.SpecRequired = append(o.SpecRequired, ErrObs{Path: e.List[1].Atom, Msg: e.List[2].Atom})
+			}
+		}
+		for _, e := range sp[3].List {
+			if len(e.List) == 3 {
+				o.SpecAll = append(o.SpecAll, ErrObs{Path: e.List[1].Atom, Msg: e.List[2].Atom})
+			}
+		}
 	}
 	return o, nil
 }
